@@ -396,8 +396,9 @@ def build_tbmodels(case, hops, onsite):
             m.add_hop(amp, i, j, R)
         return m
     if how == "hop_list":
+        # contains_cc=False: every bond is listed once, the conjugate partner is implied
         return tbmodels.Model.from_hop_list(hop_list=[(amp, i, j, tuple(R)) for _, i, j, R, _, amp in hops],
-                                            on_site=ons, size=norb, **kw)
+                                            on_site=ons, size=norb, contains_cc=False, **kw)
     # explicit hopping dictionaries
     full = {}
     zero = tuple([0] * dim)
@@ -410,7 +411,8 @@ def build_tbmodels(case, hops, onsite):
         full[R][i, j] += amp
         full[mR][j, i] += np.conj(amp)
     if how == "hop_dict_full":
-        return tbmodels.Model(hop=full, contains_cc=False, size=norb, **kw)
+        # contains_cc=True (TBmodels' wording): the dictionary holds H(R) for R and -R, and the whole H(0)
+        return tbmodels.Model(hop=full, contains_cc=True, size=norb, **kw)
     raise KeyError(how)
 
 
@@ -423,6 +425,8 @@ def hand_cases(tier):
             for size in range(0, min(maxsub, len(names)) + 1):
                 for sub in itertools.combinations(names, size):
                     for onsite in ("none", "generic"):
+                        if size == 0 and onsite == "none":
+                            continue          # H = 0: not a model
                         for amp in (amps if size else amps[:1]):
                             for lib, spin in (("pythtb", False), ("pythtb", True), ("tbmodels", False)):
                                 yield {"kind": "hand", "lib": lib, "spin": spin, "dim": dim, "norb": norb,
@@ -447,7 +451,9 @@ def run_hand(case, seed):
         except Exception as e:
             # one key per failing input class: models without any inter-cell hopping are a class of their own
             cls = ":no_intercell_hops" if all(not any(R) for _, _, _, R, _, _ in hops) else ""
-            return {"ok": False, "key": f"from_{lib}:import_raises:{type(e).__name__}{cls}", "nontrivial": nontrivial,
+            key = (f"tb_import:raises:{type(e).__name__}{cls}" if cls   # same code path for both libraries
+                   else f"from_{lib}:import_raises:{type(e).__name__}")
+            return {"ok": False, "key": key, "nontrivial": nontrivial,
                     "detail": f"{case}: import raised {type(e).__name__}: {e}"}
         for kname, kd, k3 in kpoints(dim):
             es = src_energies(model, lib, kd)
